@@ -368,7 +368,7 @@ def orders(rng, rects, max_full: int):
 def findloc_cases(ctx: Ctx, reqs, todo) -> None:
     """`find_location` alone: trunk vs a rectangle sliding around it at ε-resolution (Q stream)."""
     rng = ctx.rng
-    for _ in range(ctx.n(5000, 100000)):
+    for _ in range(_n(ctx, 5000, 100000)):
         eps = rng.choice([0.125, 0.03125, 0.25])
         epsA = rng.choice([0.0, 0.015625, 0.25, 1.0])
         g = eps / 2
@@ -410,6 +410,12 @@ def findloc_cases(ctx: Ctx, reqs, todo) -> None:
         ctx.count("findloc:" + got)
 
 
+def _n(ctx: Ctx, quick: int, thorough: int) -> int:
+    """case count; the ×20 extended-search multiplier is capped at ×5 (the base counts already fill the budget)."""
+    base = quick if ctx.tier == "quick" else thorough
+    return min(ctx.n(quick, thorough), 5 * base)
+
+
 def run(ctx: Ctx) -> None:
     ctx.rule = ("lists built by construction (trunk + 0..4 branches on random sides, flush with corners or inside the extent), "
                 "near misses (one branch with a gap / overlap / overhang / too wide / diagonal at distances ε/2, ε, 2ε, …), "
@@ -425,7 +431,7 @@ def run(ctx: Ctx) -> None:
         if inp.get("route") in ("func", "module", "netlist"):
             one_list(ctx, inp["mode"], inp["route"], inp["eps"], inp["epsA"], inp["rects"], reqs, todo, "seed")
     max_full = 4 if ctx.tier == "quick" else 5
-    for i in range(ctx.n(2200, 30000)):
+    for i in range(_n(ctx, 2200, 14000)):
         mode = "Q" if i % 3 != 2 else "F"
         if mode == "Q":
             eps = rng.choice([0.125, 0.125, 0.03125, 0.0009765625])
